@@ -142,8 +142,8 @@ Definition pair_eqb (a b : msg * Z) : bool := msg_eqb (fst a) (fst b) && Z.eqb (
 
 Inductive case :=
 (* CacheMarshal of m with setExpireAt(pxat) gave [out], CacheSize gave [size], CacheUnmarshalView(out) gave [back],
-   and CacheUnmarshalView of the prefix of length k gave [nth k trunc] for every k < length out *)
-| CCodec (m : msg) (pxat : Z) (out : bytes) (size : N) (back : result (msg * Z)) (trunc : list (result unit))
+   and CacheUnmarshalView of the prefix of length k gave r for every (k, r) in [trunc] *)
+| CCodec (m : msg) (pxat : Z) (out : bytes) (size : N) (back : result (msg * Z)) (trunc : list (nat * result unit))
 (* CacheUnmarshalView on an arbitrary (mutated) buffer *)
 | CUnm (buf : bytes) (back : result (msg * Z))
 | CExpire (pxat : Z) (ttl : bytes) (back : Z).
@@ -154,8 +154,7 @@ Definition check_case (c : case) : bool :=
       bytes_eqb (cache_marshal m (set_expire_at pxat)) out &&
       (cache_size m =? size) &&
       result_eqb pair_eqb (cache_unmarshal_view out) back &&
-      list_eqb (result_eqb unit_eqb)
-        (map (fun k => status (cache_unmarshal_view (firstn k out))) (seq 0 (length trunc))) trunc
+      forallb (fun p => result_eqb unit_eqb (status (cache_unmarshal_view (firstn (fst p) out))) (snd p)) trunc
   | CUnm buf back => result_eqb pair_eqb (cache_unmarshal_view buf) back
   | CExpire pxat ttl back => bytes_eqb (set_expire_at pxat) ttl && Z.eqb (get_expire_at ttl) back
   end.
